@@ -134,20 +134,20 @@ func streamErrClass(err error) string {
 }
 
 type attempt struct {
-	startFile string
-	startOff  int64
-	events    [][]byte
-	verdicts  []bool // per handler call; beyond the list: accept
-	cancelAt  int    // >=0: cancel the context once that many events have been handed over (channel stays open)
-	cancelInRefusal bool // the refusing handler call also cancels the context (handler gives up on shutdown)
-	mapper    *hMapper
+	startFile       string
+	startOff        int64
+	events          [][]byte
+	verdicts        []bool // per handler call; beyond the list: accept
+	cancelAt        int    // >=0: cancel the context once that many events have been handed over (channel stays open)
+	cancelInRefusal bool   // the refusing handler call also cancels the context (handler gives up on shutdown)
+	mapper          *hMapper
 }
 
 type attemptResult struct {
-	pos     vh.Val
-	stored  vh.Val
-	calls   []vh.Val // (tx accepted)
-	outcome string
+	pos      vh.Val
+	stored   vh.Val
+	calls    []vh.Val // (tx accepted)
+	outcome  string
 	panicked bool
 }
 
